@@ -69,10 +69,11 @@ int sprintf(char *d, const char *fmt, ...)
 static void *vg_ccalloc(size_t a, size_t b) { __CPROVER_assert(a * b <= VG_HCAP, "bounded group: header block request fits the constant capacity"); return (calloc)(1, VG_HCAP); }
 /* a request beyond the capacity needs more header bytes than the bounded input holds: the read that follows such a
    growth fails in the real code as well, so failing the growth is outcome-equivalent within the bound */
-static void *vg_crealloc(void *p, size_t n) { if (n > VG_HCAP) return NULL; return nondet_bool() ? p : NULL; }
+static _Bool vg_alloc_failed;   /* ghost: some allocation stub returned NULL */
+static void *vg_crealloc(void *p, size_t n) { if (n > VG_HCAP) { vg_alloc_failed = 1; return NULL; } if (nondet_bool()) return p; vg_alloc_failed = 1; return NULL; }
 #define calloc(a, b) vg_ccalloc(a, b)
 #define realloc(p, n) vg_crealloc(p, n)
-static void *vg_cmalloc(size_t n) { __CPROVER_assert(n <= VG_CAP, "bounded group: allocation request fits the constant capacity"); return (malloc)(VG_CAP); }
+static void *vg_cmalloc(size_t n) { void *r; __CPROVER_assert(n <= VG_CAP, "bounded group: allocation request fits the constant capacity"); r = (malloc)(VG_CAP); if (r == NULL) vg_alloc_failed = 1; return r; }
 char *strdup(const char *s0)
 {
 	char *d = vg_cmalloc(VG_CAP); size_t k; _Bool e = 0;
@@ -227,6 +228,11 @@ void h_level01_only(void)
 	vg_in_n = nondet_size_t();
 	__CPROVER_assume(vg_in_n <= VG_HN && vg_in_n >= COMMON_HEADER_LEN);
 	__CPROVER_assume(vg_in_b[20] == VG_LEVEL);
+#ifdef VG_FIXHL
+	vg_in_b[0] = VG_FIXHL;
+	vg_in_b[21] = VG_FIXHL - (VG_LEVEL == 0 ? 22 : 25);
+	vg_in_n = VG_HN;
+#endif
 	h = calloc(1, sizeof(LHAFileHeader) + COMMON_HEADER_LEN);
 	__CPROVER_assume(h != NULL);
 	h->_refcount = 1;
@@ -235,7 +241,22 @@ void h_level01_only(void)
 	ok = lha_input_stream_read((LHAInputStream *) 0, h->raw_data, h->raw_data_len);
 	__CPROVER_assume(ok);
 	h->header_level = h->raw_data[20];
+#ifdef VG_FIXHL
+	/* long-header variant: the length byte and the name length are CONSTANTS of the group (so that every loop bound and
+	   allocation size is concrete for the symbolic execution); all other header bytes stay symbolic.  The name fills the
+	   header: no level-0 extended area.  Must be set before the first 22 bytes are handed to the code, see below. */
+#endif
 	ok = decode_level0_header(&h, (LHAInputStream *) 0);
+#ifdef VG_CONST_MALLOC
+	if (!ok) {
+		/* C05, accept direction: a header that satisfies every rule of its level, lies completely inside the input and
+		   meets no allocation failure is decoded, whatever its length byte (up to 255) and name length */
+		unsigned sum = 0, hl = vg_in_b[0], minl = (VG_LEVEL == 0 ? 22u : 25u), pl = vg_in_b[21];
+		for (k = 0; k < VG_HN; k++) { if (k >= 2 && k < hl + 2) sum += vg_in_b[k]; }
+		__CPROVER_assert(!(hl >= minl && hl + 2 <= vg_in_n && (sum & 0xff) == vg_in_b[1] && minl + pl <= hl && !vg_alloc_failed),
+		                 "C05: a level-0/1 base header that satisfies its length and checksum rules is accepted");
+	}
+#endif
 	if (ok) {
 		unsigned sum = 0, hl = vg_in_b[0], minl = (VG_LEVEL == 0 ? 22u : 25u), pl = vg_in_b[21];
 		for (k = 0; k < VG_HN; k++) { if (k >= 2 && k < hl + 2) sum += vg_in_b[k]; }
